@@ -487,6 +487,18 @@ func withStructure(got, want string) (class, what string) {
 	return "", ""
 }
 
+var formatLitRe = regexp.MustCompile(`format\('((?:[^'\\]|\\.)*)'`)
+var holeRe = regexp.MustCompile(`\{\d+\}`)
+
+// formatHoles: number of {n} placeholders of the first format('…', …) call of a statement list.
+func formatHoles(sql string) int {
+	m := formatLitRe.FindStringSubmatch(sql)
+	if m == nil {
+		return 0
+	}
+	return len(holeRe.FindAllString(m[1], -1))
+}
+
 // selfRefCTE reports the alias of a CTE whose body selects from itself (`X as ( ... FROM X as ...`).
 func selfRefCTE(sql string) string {
 	for _, m := range regexp.MustCompile(`([A-Za-z_][A-Za-z0-9_]*) as \( SELECT`).FindAllStringSubmatchIndex(sql, -1) {
@@ -656,6 +668,9 @@ func classify(m Mismatch) (class, what string) {
 			if dev == m.Got || staleLowerDateOnly(m.Got, dev) {
 				return "reexec_line_filter_val_overwritten", fmt.Sprintf("execution #%d of the plan of %s sends the SQL of %s (LineFilterPlanner.Process stored the extracted literal in l.Val)", m.Event+1, s.Q, dq)
 			}
+		}
+		if g, w := formatHoles(m.Got), formatHoles(m.Want); w > 0 && g == (m.Event+1)*w {
+			return "reexec_line_format_template_accumulates", fmt.Sprintf("execution #%d of the plan of %s renders format() with %d placeholders and arguments, a fresh plan with %d (LineFormatPlanner.ProcessTpl appends to l.formatStr / l.args on every execution)", m.Event+1, s.Q, g, w)
 		}
 		if g, w := aggAttr(m.Got), aggAttr(m.Want); g != "" && w != "" && g != w {
 			return "reexec_traceql_aggregated_attr_renamed", fmt.Sprintf("execution #%d of the plan of %s aggregates attribute %q, the first execution / a fresh plan %q (AttrConditionPlanner.aggregator strips one more prefix from a.AggregatedAttr on every execution)", m.Event+1, s.Q, g, w)
